@@ -643,16 +643,17 @@ Proof.
     + (* from the shielded yield *)
       assert (Hr : resv_phase s t b) by (left; exact Ep).
       destruct (mustc s t).
-      * destruct (mem t (borrowers (leave s t (remove_one b (resv s))))) eqn:Em; cbn [fst].
-        -- unfold give_back. rewrite taint_notify. rewrite notify_tainted. cbn [tainted taint with_tok leave]. intros Ht.
-           apply orb_false_l2 in Ht. destruct Ht as [Ht Hbt].
-           apply negb_false_iff, Nat.eqb_eq in Hbt. subst b.
-           destruct (I Ht) as [C N]. destruct (resv_facts s t t C Hr) as (_ & Hb & _ & _).
-           constructor.
+      * unfold fy_cancel. cbn [leave borrowers].
+        destruct (mem b (borrowers s)) eqn:Em; cbn [fst].
+        -- rewrite give_back_tainted. cbn [tainted leave]. intros Ht.
+           destruct (I Ht) as [C N]. destruct (resv_facts s t b C Hr) as (_ & Hb & _ & _).
+           unfold give_back. constructor.
            ++ apply notify_core. lprj. now apply giveback_core.
            ++ apply notify_nofree; [lprj; now apply giveback_core|].
               lprj. eapply nofree_after_remove; eauto.
-        -- cbn. intros Ht. rewrite orb_true_r in Ht. discriminate.
+        -- cbn [tainted leave]. intros Ht. exfalso.
+           destruct (I Ht) as [C N]. destruct (resv_facts s t b C Hr) as (_ & Hb & _ & _).
+           apply mem_false in Em. contradiction.
       * cbn [fst add_held leave tainted]. intros Ht. destruct (I Ht) as [C N]. constructor.
         -- lprj. now apply return_core.
         -- exact N.
